@@ -301,3 +301,7 @@ def dtab_api(ctx, prog):
 dtab_api.rule_id = "C07.DTAB-api"
 
 RULES = [guard_read, wmw_value, wmw_inuse, tyg_by_value, sib_var_slot, dom_status_first, dtab_api]
+
+# control signature of the bookkeeping effects this property depends on (rules/ctrlsig.py)
+from .ctrlsig import make_rule as _ctrl_rule  # noqa: E402
+RULES.append(_ctrl_rule("C07"))
